@@ -34,7 +34,7 @@ STUBS = [
 ]
 OUTSIDE = ['faithfulness of the XML encoding for all strings (xml.etree is the C _elementtree: only menu strings are exercised)',
            'custom error serializers', 'class hierarchies beyond the lattice', 'title/description longer than 2 characters']
-BUDGET = {'quick': 300, 'thorough': 1800}
+BUDGET = {'quick': 300, 'thorough': 900}
 
 
 class Base(Exception):
